@@ -1,9 +1,10 @@
 import os, sys
 sys.path.insert(0, os.path.join(os.path.dirname(os.path.abspath(__file__)), '..', 'lib'))
-import vlib, flow
+import vlib, flow, gen_trans
 
 H = os.path.join(vlib.ROOT, 'harness/kernel/mm/vmm')
 vlib.register_const_dump('kernel', 'mm/vmm', os.path.join(H, 'zz_verif_consts_test.go'))
+gen_trans.register('mm_vmm.json')   # Go -> Gallina translation of EarlyReserveRegion and the mm page/frame helpers
 
 TEMP = 0xffffff7ffffff000
 M64 = (1 << 64) - 1
@@ -19,7 +20,8 @@ class C07(flow.Spec):
     rule = ('histories of EarlyReserveRegion / MapRegion / IdentityMapRegion calls from a page-aligned cursor; sizes from '
             '{0,1,4095,4096,4097,random,remaining-4096,remaining,remaining+1,2^63,2^64-4096,2^64-4095,2^64-1}; '
             'non-trivial = at least one request succeeds and one is near a boundary; distinct = distinct op lists')
-    assumptions = ['mapFn seam stands for Map (modelled in C04); sizes are uintptr (< 2^64)',
+    assumptions = ['gen/gotrans (go/ast -> Gallina for the integer subset of Go) regenerates EarlyReserveRegion, mm.PageFromAddress, mm.FrameFromAddress and the pageTableEntry helpers from the source; C07_model_is_translation proves the hand model equal to that term',
+                   'mapFn seam stands for Map (modelled in C04); sizes are uintptr (< 2^64)',
                    'cursor starts page-aligned at or below tempMappingAddr (the kernel initialises it to tempMappingAddr)']
 
     def gen_cases(self, rng, tier):
